@@ -13,7 +13,7 @@ Fixpoint sideOK (nm cur : str) (ss : list stmt) (st : nst) : Prop :=
   | [] => True
   | x :: r =>
     (nm = cur -> cond x st) /\
-    (forall c, x = SModel c -> nm = c -> n_bb st = false) /\
+    (forall c, x = SModel c -> nm = c -> n_bb st = false /\ n_att st = [] /\ n_conns st = []) /\
     sideOK nm (next_c cur x) r (step_g nm cur x st)
   end.
 
@@ -34,36 +34,41 @@ Qed.
 Lemma exec_R_model s c s' nm st :
   exec s (SModel c) = Ok s' ->
   R nm (get_model nm (st_models s)) st ->
-  R nm (get_model nm (st_models s')) (step_g nm (s_cur s) (SModel c) st) /\ s_cur s' = c /\ s_isbb s' = false.
+  (nm = c -> n_att st = [] /\ n_conns st = []) ->
+  RX nm (s_cur s') (s_merged s') (get_model nm (st_models s')) (step_g nm (s_cur s) (SModel c) st) /\
+  s_cur s' = c /\ s_isbb s' = false.
 Proof.
-  intros H HR. cbn [exec] in H.
-  assert (E : s_cur s' = c /\ s_isbb s' = false /\
+  intros H HR Hm. cbn [exec] in H.
+  assert (E : s_cur s' = c /\ s_isbb s' = false /\ s_merged s' = [] /\
               st_models s' = upd_model c (fun m => set_defined m true) (ensure_model c (st_models s))).
   { destruct (b_top (s_nl s)); inversion H; subst s'; cbn; auto. }
-  destruct E as [E1 [E2 E3]]. split; [|split; assumption]. rewrite E3. cbn [step_g].
+  destruct E as [E1 [E2 [E4 E3]]]. split; [|split; assumption]. rewrite E1, E3, E4. cbn [step_g].
   destruct (str_eqb nm c) eqn:E.
   - apply str_eqb_spec in E. rewrite <- E. destruct (ensure_model_finds nm (st_models s)) as [m0 Hm0].
     rewrite (get_model_upd_same _ _ _ m0); [|intros y Hy; exact Hy|exact Hm0].
     assert (Em : m0 = get_model nm (st_models s)) by (rewrite <- (get_model_ensure nm (st_models s) nm); symmetry; apply get_model_find; exact Hm0).
-    rewrite Em. destruct HR as [R1 R2 R3 R4 R5 R6 R7 R8 R9]. constructor; auto.
-  - apply str_eqb_false in E. rewrite get_model_upd_other; [|intros y Hy; exact Hy|exact E].
+    rewrite Em. destruct (Hm E) as [A1 A2].
+    destruct HR as [R1 R2 R3 R4 R5 R6 R7 R8]. split; [constructor; auto|].
+    intros _ _. cbn [set_def n_att n_conns set_defined m_cables]. rewrite A1, A2, (R7 A1 A2). apply NI_nil.
+  - apply str_eqb_false in E. apply RX_other; [exact E|]. rewrite get_model_upd_other; [|intros y Hy; exact Hy|exact E].
     rewrite get_model_ensure. exact HR.
 Qed.
 
 Lemma run_all ss : forall s s',
   J s -> Q (st_models s) -> reserved (s_cur s) = false -> Forall okstmt ss ->
   exec_all s ss = Ok s' ->
-  forall nm st, R nm (get_model nm (st_models s)) st ->
+  forall nm st, RX nm (s_cur s) (s_merged s) (get_model nm (st_models s)) st ->
     (nm = s_cur s -> s_isbb s = n_bb st) ->
     sideOK nm (s_cur s) ss st ->
     R nm (get_model nm (st_models s')) (run_g nm (s_cur s) ss st).
 Proof.
   induction ss as [|x ss IH]; intros s s' HJ HQ Hcr Hok H nm st HR HT HS; cbn [exec_all] in H.
-  - inversion H; subst. exact HR.
+  - inversion H; subst. exact (RX_R _ _ _ _ _ HR).
   - apply bind_ok in H as [s1 [H1 H2]]. inversion Hok as [|? ? Hx Hok']; subst.
     destruct HS as [S1 [S2 S3]].
     destruct (exec_R s x s1 nm st HJ HQ Hcr H1 HR) as [R1 [E1 E2]].
     { intro Hn. split; [apply S1; exact Hn|apply HT; exact Hn]. }
+    { intros c Ex En. destruct (S2 c Ex En) as [_ A]. exact A. }
     pose proof (exec_inv _ _ _ HJ H1) as HJ1. pose proof (exec_Q _ _ _ HQ Hcr Hx H1) as HQ1.
     assert (Hcr1 : reserved (s_cur s1) = false).
     { rewrite E1. destruct x; cbn [next_c]; try exact Hcr. exact Hx. }
@@ -91,7 +96,7 @@ Proof.
     + assert (HI : Inv (st_models s)) by (rewrite Hs; split; [constructor|intros m []]).
       pose proof (exec_model_J _ _ _ HI H1) as HJ1.
       assert (R0 : R nm (get_model nm (st_models s)) st0) by (rewrite Hs; apply R_st0).
-      destruct (exec_R_model s nm0 s1 nm st0 H1 R0) as [R1 [E1 E2]].
+      destruct (exec_R_model s nm0 s1 nm st0 H1 R0) as [R1 [E1 E2]]; [intros _; split; reflexivity|].
       assert (HQ1 : Q (st_models s1)).
       { assert (E3 : st_models s1 = upd_model nm0 (fun m => set_defined m true) (ensure_model nm0 [])).
         { cbn [exec] in H1. rewrite <- Hs. destruct (b_top (s_nl s)); inversion H1; subst s1; cbn; auto. }
